@@ -2,7 +2,8 @@
 # Model of a compact world merged from several index files (C17)
 
 Mirrors `/repo/src/diagonal.works/b6/ingest/compact/world.go` (`FeaturesByID.Merge`, `World.Merge`,
-`findWithoutCache`, `hasFeatureWithID`, `FindLocationByID`, `EachFeature`, `World.FindFeatures`) and
+`findWithoutCache`, `hasFeatureWithID`, `FindLocationByID`, `findPathsByPoint` / `FindReferences(·, path)`,
+`EachFeature`, `World.FindFeatures`) and
 `/repo/src/diagonal.works/b6/merged.go` (`mergedFeatures`).
 
 * A **file** is a namespace table (`NamespaceTable.FromEncoded`: the namespace of every code), a list of
@@ -57,6 +58,9 @@ structure Entry (α β : Type) where
   kind : Kind
   content : α
   loc : Option β
+  /-- points: the paths recorded against the point (`CommonPoint.Path`, `FullPoint.Paths`,
+  `PointReferences.Paths`), decoded through the file's own table as `findPathsByPoint` does -/
+  paths : List ID
 
 /-- `newPhysicalFeatureFromTagged` returns nil for a references-only point; paths, areas and relations are
 found whenever their entry exists. -/
@@ -158,6 +162,26 @@ def loc : List (Block α β) → ID → Option β
 
 /-- `wrappedMarshalledPhysicalFeature.PointAt` over every reference of a path (`none`: panic) -/
 def pathPoints (w : List (Block α β)) (refs : List ID) : Option (List β) := refs.mapM (loc w)
+
+/-- `add` of `findPathsByPoint`: `if !slices.Contains(paths, pid) { paths = append(paths, pid) }` -/
+def addPaths (acc : List ID) : List ID → List ID
+  | [] => acc
+  | p :: ps => addPaths (if acc.contains p then acc else acc ++ [p]) ps
+
+/-- `findPathsByPoint`: every *point* block of the namespace is consulted (whatever the type of the id),
+entries of every kind — references-only ones are how an overlay records its paths over base points. -/
+def pathsByPoint : List (Block α β) → ID → List ID → List ID
+  | [], _, acc => acc
+  | b :: rest, id, acc =>
+    if b.matchesAs 0 0 id.ns then
+      match b.findFirst id.val with
+      | some e => pathsByPoint rest id (addPaths acc e.paths)
+      | none => pathsByPoint rest id acc
+    else pathsByPoint rest id acc
+
+/-- `FindReferences(id, b6.FeatureTypePath)` drained: the paths through a point that exist in the world -/
+def pathRefs (w : List (Block α β)) (id : ID) : List ID :=
+  if id.typ = 0 then (pathsByPoint w id []).filter (fun p => (find w p).isSome) else []
 
 /-- the namespace `EachFeature` / `newPhysicalFeature` give the ids of a block:
 `fb.NamespaceTable.Decode(fb.Namespaces[typ])` -/
